@@ -292,15 +292,18 @@ void run_case(Input const& in, Ctx& ctx) {
 			long n = d.size(); VSpec sx = d.vspec(false), sy = d.vspec(false); T alpha = d.scalar();
 			auto x = d.vec(n, 1), y = d.vec(n, 2);
 			pr(ctx.desc, "x", sx, n); if(op != OP_SCAL) { pr(ctx.desc, "y", sy, n); } if(op == OP_AXPY || op == OP_SCAL) { prs(ctx.desc, "alpha", alpha); }
-			int f2 = static_cast<int>(form % 2U);
-			if(op == OP_AXPY) { ctx.desc << (f2 == 0 ? " axpy(a,x,y)" : " y += axpy(a,x)"); } if(op == OP_COPY) { ctx.desc << (f2 == 0 ? " copy(x,y)" : " y = copy(x)"); }
+			int f2 = static_cast<int>(form % 2U); int const f3 = static_cast<int>(form % 3U);
+			if(op == OP_AXPY) { ctx.desc << (f3 == 0 ? " axpy(a,x,y)" : f3 == 1 ? " y += axpy(a,x)" : " y -= axpy(a,x)"); } if(op == OP_COPY) { ctx.desc << (f2 == 0 ? " copy(x,y)" : " y = copy(x)"); }
 			must_accept = n >= 1;
 			res = in_child([&]() -> std::string {
 				RealV rx(x, sx), ry(y, sy); std::string out;
 				std::vector<T> wx = x, wy = y;
 				rx.with_view([&](auto&& xv) { ry.with_view([&](auto&& yv) {
 					switch(op) {
-						case OP_AXPY: if(f2 == 0) { blas::axpy(alpha, xv, yv); } else { yv += blas::axpy(alpha, std::as_const(xv)); }  // (the lazy form takes a const vector) for(long i = 0; i < n; ++i) { wy[static_cast<std::size_t>(i)] = alpha*x[static_cast<std::size_t>(i)] + y[static_cast<std::size_t>(i)]; } break;
+						case OP_AXPY:  // (the lazy forms take a const vector)
+							if(f3 == 0) { blas::axpy(alpha, xv, yv); } else if(f3 == 1) { yv += blas::axpy(alpha, std::as_const(xv)); } else { yv -= blas::axpy(alpha, std::as_const(xv)); }
+							for(long i = 0; i < n; ++i) { wy[static_cast<std::size_t>(i)] = (f3 == 2 ? -alpha : alpha)*x[static_cast<std::size_t>(i)] + y[static_cast<std::size_t>(i)]; }
+							break;
 						case OP_COPY: if(f2 == 0) { blas::copy(xv, yv); } else { yv = blas::copy(xv); } wy = x; break;
 						case OP_SWAP: blas::swap(xv, yv); wx = y; wy = x; break;
 						default: blas::scal(alpha, xv); for(auto& e : wx) { e = alpha*e; } break;
